@@ -43,7 +43,7 @@ def run(ctx):
             violations.append({"signature": {"py": ver, "cause": "cfg-differs"},
                                "what": f"Python {ver}: {len(other)} functions whose CFG differs from the interpreter's control flow",
                                "payload": {"examples": other[:5]}})
-        if r["n_model_mismatches"] and not violations:
+        if r["n_model_mismatches"]:
             path = common.write_replay("C09", {"property": "C09", "kind": "correspondence-broken",
                                                "correspondence": "Scfg.Model.Bytecode vs FlowInfo", "python": ver,
                                                "examples": r["model_mismatches"]})
